@@ -48,12 +48,14 @@ void harness_upgrade_rules(void)
 	CONN.br.writev = u_writev; CONN.parser.data = &WS; CONN.compression_level = 0;
 	__CPROVER_assume(websocket_init(&WS, &CONN, true, on_err, "jet") == 0);
 	int with_key = nd_bool(), key_ok = nd_bool(), with_version = nd_bool(), version_ok = nd_bool();
+	int proto_lookalike = nd_bool();
 	int with_proto = nd_bool(), proto_jet = nd_bool(), method_get = nd_bool(), http11 = nd_bool(), upgrade_flag = nd_bool(), other_header = nd_bool();
 	int bad = 0;
 	if (other_header) hdr("Host", "example", &bad);
 	if (with_key) hdr("sec-websocket-KEY", key_ok ? "dGhlIHNhbXBsZSBub25jZQ==" : "tooshort", &bad);
 	if (with_version) hdr("Sec-WebSocket-Version", version_ok ? "13" : "8", &bad);
-	if (with_proto) hdr("Sec-WebSocket-Protocol", proto_jet ? "chat, jet" : "chat,superchat", &bad);
+	/* offers that merely look like "jet" (prefix, suffix, different case) are other protocols */
+	if (with_proto) hdr("Sec-WebSocket-Protocol", proto_jet ? "chat, jet" : (proto_lookalike ? "jetx, je, Jet" : "chat,superchat"), &bad);
 	int accepted = 0;
 	if (!bad) {          /* a callback error stops the HTTP parser: headers-complete is then never reached */
 		CONN.parser.method = method_get ? HTTP_GET : HTTP_POST;
